@@ -54,6 +54,9 @@ CANARIES = {
     "C06": [
         ("contributing-name-lost", "stix2/v21/observables.py", "drop-list-element", ["'serial_number'"], "C06.table"),
         ("hash-priority-typo", "stix2/base.py", "str-perturb", ["_choose_one_hash", "'SHA-256'"], "C06.constants"),
+        ("insertion-order-first-hash", "stix2/base.py", "text", ["k = next(iter(sorted(hash_dict)), None)", "k = next(iter(hash_dict), None)"], "C06.constants"),
+        ("id-none-taken-for-an-id", "stix2/v21/base.py", "text", ["if kwargs.get('id') is None:", "if 'id' not in kwargs:"], "C06.wiring"),
+        ("tuples-hashed-as-text", "stix2/base.py", "text", ["elif isinstance(value, (list, tuple)):", "elif isinstance(value, list):"], "C06.wiring"),
     ],
     "C07": [
         ("path-prefix", "stix2/markings/granular_markings.py", "drop-bool-operand", ["get_markings", "inherited", "drop operand 1", "startswith"], "C07.query-siblings"),
@@ -136,6 +139,7 @@ CANARIES = {
     "C19": [
         ("duplicate-refusal-removed", "stix2/registration.py", "drop-raise-guard", ["_register_observable", "OBJ_MAP_OBSERVABLE"], "C19.map-agreement"),
         ("wrong-category", "stix2/registration.py", "str-perturb", ["_register_marking", "'markings'"], "C19.map-agreement"),
+        ("type-regex-backtracks", "stix2/properties.py", "text", ["TYPE_21_REGEX = re.compile(r'^[a-z][a-z0-9-]*\\Z')", "TYPE_21_REGEX = re.compile(r'^([a-z][a-z0-9]*)+([a-z0-9-]+)*-?\\Z')"], "C19.type-grammar"),
     ],
     "C20": [
         ("boundary-overlap", "stix2/confidence/scales.py", "int+1", ["value_to_wep", "39 -> 40"], "C20.specification"),
